@@ -45,6 +45,10 @@ CHECKS = {
         text="21 scenarios (key loading, session creation, full/resumed/client-auth/PSK handshakes per version incl. DTLS fragmentation, data with buffer growth, seven must-fail authentication scenarios) are first run fault-free to count allocations and entropy reads; "
              "then every allocation index is failed once (thorough: all; quick: all of the short scenarios, first 600 + stride of the long ones), every entropy read is failed, and seeded multi-fault/burst sequences are run. "
              "Oracle: no sanitizer report or signal, delivered data never altered, zero live library blocks after the application deleted its objects (leak attributed to the owning function by a frame-pointer backtrace), must-fail scenarios never complete. Remaining leak sites are recorded known findings."),
+    "C04": dict(engine="auth", level="exploration", design="10/C04",
+        technique="deterministic simulation: grid and seeded swarm of defective-peer handshakes with per-node simulated wall-clock jumps, forged credentials and a byzantine signer (psSign seam); callback-justification oracle",
+        text="Every (version, key exchange, identity kind) x verifier role x one credential defect (unknown CA, expired / not yet valid by a wall-clock jump after key load, name mismatch, forged certificate signature, corrupted proof-of-possession signature) x callback policy; "
+             "oracle: the verifier completes only if there was no defect or a registered callback was invoked with a non-zero alert and accepted it; proof-of-possession defects never complete; no-defect controls must complete."),
 }
 
 NOT_APPLICABLE = [
